@@ -482,6 +482,9 @@ def r_refs(ctx, toks):
             if ty in STRUCT_TYPES or ty in ctx.unit.get('extra_types', []):
                 if i + 1 < n and toks[i + 1].t == '.' and ty not in VEC_TYPES:
                     out.extend([t, P('->', '')]); i += 2; fire(ctx, 'ref-arrow'); continue
+                prev = out[-1].t if out else ''
+                if i + 1 < n and toks[i + 1].t == '=' and prev in (';', '{', '}', ')', 'else') and ctx.env[t.t][1] is True:
+                    out.extend([P('(', t.ws), P('*', ''), Tok('id', t.t, ''), P(')', '')]); i += 1; fire(ctx, 'ref-assign'); continue
             elif ty in ('double', 'ndsize_t', 'size_t', 'bool', 'int') and ctx.env[t.t][1] == 'param':
                 out.extend([P('(', t.ws), P('*', ''), Tok('id', t.t, ''), P(')', '')]); i += 1; fire(ctx, 'ref-scalar-deref'); continue
         out.append(t); i += 1
@@ -576,6 +579,9 @@ def r_calls(ctx, toks):
                         a = [Tok('id', 'self', a[0].ws)]; changed = True; fire(ctx, 'arg-self')
                     if pref and len(a) == 1 and a[0].k == 'id' and a[0].t in ctx.env and not ctx.env[a[0].t][1]:
                         a = [P('&', a[0].ws), Tok('id', a[0].t, '')]; changed = True; fire(ctx, 'arg-addr')
+                    elif (not pref) and pty in STRUCT_TYPES and len(a) == 1 and a[0].k == 'id' and a[0].t in ctx.env \
+                            and ctx.env[a[0].t] == (pty, True):
+                        a = [P('*', a[0].ws), Tok('id', a[0].t, '')]; changed = True; fire(ctx, 'arg-deref')
                     new.append(a)
                 if changed:
                     flat = []
